@@ -97,11 +97,8 @@ Proof.
     { clear -Hm Hc. induction (enodes e) as [|x l IHl]; [destruct Hm|]. cbn [filter]. destruct Hm as [->|Hm].
       - rewrite Hc, Nat.eqb_refl. cbn. apply le_n_S, Nat.le_0_l.
       - destruct (Nat.eqb (c x) n); cbn [length]; [apply le_S|]; apply IHl; exact Hm. }
-    destruct (etyp e); try congruence; eapply Nat.le_trans; [exact H | apply Nat.le_add_r].
-  - specialize (IH He Ht Hm Hc). destruct (etyp a); try exact IH; eapply Nat.le_trans; [exact IH | apply Nat.le_add_l].
+    destruct (etyp e); try congruence; (eapply Nat.le_trans; [exact H | apply Nat.le_add_r]).
+  - specialize (IH He Ht Hm Hc). destruct (etyp a); try exact IH; (eapply Nat.le_trans; [exact IH | apply Nat.le_add_l]).
 Qed.
-Lemma terminals_at_alias (c : nat -> nat) (S : list elem) (n m m' : nat) :
-  c m = c m' -> (c m = n <-> c m' = n).
-Proof. intros ->. reflexivity. Qed.
 End Keyed.
 Arguments perm_split {K}. Arguments perm_extract {K}. Arguments lookup_all_spec {K}. Arguments find_In {K}. Arguments find_unique {K}. Arguments names_filter_NoDup {K}. Arguments lookup_cons {K}.
